@@ -636,7 +636,14 @@ pub fn gen_statements(src: &mut Src, cfg: &SemCfg, sc: &SemCtx, max: usize, fail
                     }
                 }
             }
-            5 => match src.pick(7) {
+            5 => match src.pick(10) {
+                7 => R::Call("nofn".into(), vec![R::Infix("=".into(), bx(R::Ref(target(src))), bx(R::Num("1".into())))]),
+                8 => {
+                    // the call's own name is rebound by one of its arguments
+                    let f = sc.funcs_of(Ty::Any).into_iter().map(|x| x.0).next().unwrap_or_else(|| "min".to_string());
+                    R::Infix("=".into(), bx(R::Ref(target(src))), bx(R::Call(f.clone(), vec![R::Infix("=".into(), bx(R::Ref(f)), bx(R::Num("3".into())))])))
+                }
+                9 => R::Call("min".into(), vec![R::Infix("=".into(), bx(R::Ref(target(src))), bx(R::Num("2".into()))), R::Str("x".into(), '"')]),
                 0 => R::Infix("=".into(), bx(R::Ref(target(src))), bx(R::Infix("+".into(), bx(R::Num("1".into())), bx(R::Bool("true".into()))))),
                 1 => R::Infix("=".into(), bx(R::Ref(target(src))), bx(R::Infix("/".into(), bx(R::Num("1".into())), bx(R::Num("0".into()))))),
                 2 => R::Call("nofn".into(), vec![R::Num("1".into())]),
